@@ -232,11 +232,14 @@ class NativePanic(Exception):
 def model_inputs(E, model):
     out = {}
     for name, (kind, v) in E.inputs.items():
-        out[name] = symex.concrete(v, model)
+        if kind == "custom":
+            out[name] = v(model)
+        else:
+            out[name] = symex.concrete(v, model)
     return out
 
 
-def solve_query(qfn, files, tier, K=6, N=24, timeout_ms=120000, native_map=None, lits=None, overrides=None, log=None):
+def solve_query(qfn, files, tier, K=6, N=24, timeout_ms=120000, native_map=None, lits=None, overrides=None, log=None, logic="QF_BV"):
     """Run one query symbolically and discharge its obligations.
     Returns dict(result=PASS|FAIL|INCONCLUSIVE, obligations=[...], ...)"""
     t0 = time.time()
@@ -258,7 +261,7 @@ def solve_query(qfn, files, tier, K=6, N=24, timeout_ms=120000, native_map=None,
         obls.append(Obligation("panic", msg, g))
     for g, msg in I.unwinds:
         obls.append(Obligation("unwind", msg, g))
-    s = z3.SolverFor("QF_BV")
+    s = z3.SolverFor("QF_BV") if logic == "QF_BV" else z3.Solver()
     s.set("timeout", timeout_ms)
     s.add(E.assumes)
     s.add(I.side)
